@@ -12,7 +12,9 @@
    carries a field annotation is an entrypoint of that name whose argument type is the
    node's type; entrypoint names are unique (a type with a duplicate is ill-formed and is
    not in the universe); `default` denotes the whole parameter unless a node is named
-   default.  The whole parameter ("root") is listed once.  Its name is the root's own
+   default, and if a node is named default every leaf must lie in some entrypoint (Tezos
+   rejects the type otherwise: "unreachable entrypoint"; such types are not in the universe
+   either).  The whole parameter ("root") is listed once.  Its name is the root's own
    annotation if it has one, else "default" if that name is free, else the root cannot be
    addressed by a Tezos name at all: the model calls it "<root>" and the name an
    implementation invents for it is not part of the property.
@@ -42,7 +44,6 @@ Rebase(t, i) ==   \* <<t with bases dealt round-robin from index i, next index>>
   ELSE LET L == Rebase(t[3], i)
            R == Rebase(t[4], L[2])
        IN << <<"or", t[2], L[1], R[1]>>, R[2] >>
-Universe == {Rebase(s, r)[1] : s \in Shapes(MaxDepth, Names), r \in Rots}
 
 LeafVals(b) == CASE b = "int" -> {<<"i", -1>>, <<"i", 5>>}
                  [] b = "string" -> {<<"s", <<>>>>, <<"s", <<120>>>>}
@@ -64,6 +65,11 @@ Branches(t, p) ==   \* <<name, path, type>> of every annotated node strictly bel
 BranchNames(t) == {Branches(t, <<>>)[i][1] : i \in DOMAIN Branches(t, <<>>)}
 RootName(t) == IF t[2] # "" THEN t[2] ELSE IF "default" \notin BranchNames(t) THEN "default" ELSE "<root>"
 Table(t) == Append(Branches(t, <<>>), <<RootName(t), <<>>, t>>)
+RECURSIVE AllReachable(_, _)   \* every leaf lies in (or is) an annotated node; r: an ancestor is annotated
+AllReachable(t, r) == LET r2 == r \/ t[2] # "" IN
+                      IF t[1] = "or" THEN AllReachable(t[3], r2) /\ AllReachable(t[4], r2) ELSE r2
+WellFormed(t) == (t[2] = "default" \/ "default" \in BranchNames(t)) => AllReachable(t, FALSE)
+Universe == {t \in {Rebase(s, r)[1] : s \in Shapes(MaxDepth, Names), r \in Rots} : WellFormed(t)}
 
 RECURSIVE WrapD(_, _)
 WrapD(p, a) == IF p = <<>> THEN a ELSE <<Head(p), WrapD(Tail(p), a)>>
